@@ -588,13 +588,17 @@ package tbtc
 
 // ---------------------------------------------------------------------------
 // C37: event deduplication
+// (dedupAdmit names the deduplicator's answer for the handlers in Initialize)
+//@ ghost dedupAdmit bool
 
 //@ func deduplicator.notifyDKGStarted
 //@   property C37
 //@   requires newDKGSeed != nil
 //@   binds ghost.cacheSeen = false
 //@   binds ghost.tcShared = true
-//@   modifies ghost.cacheAdds, ghost.cacheLastAdd, ghost.cacheLastKey, ghost.cacheLastCache, ghost.tcContent, ghost.tcHit
+//@   modifies ghost.cacheAdds, ghost.cacheLastAdd, ghost.cacheLastKey, ghost.cacheLastCache, ghost.tcContent, ghost.tcHit, ghost.dedupAdmit
+//@   yields ghost.dedupAdmit = result0
+//@   ensures ghost.dedupAdmit == result
 //@   ensures [proceeds-only-as-the-one-inserting-caller] result ==> ghost.cacheAdds == old(ghost.cacheAdds) + 1 && ghost.cacheLastAdd && ghost.cacheLastCache == d.dkgSeedCache && ghost.cacheLastKey == big2str(bigval(newDKGSeed))
 //@   ensures [duplicate-only-if-seen-or-the-atomic-insert-failed] !result ==> (ghost.cacheAdds == old(ghost.cacheAdds) && ghost.cacheSeen) || (ghost.cacheAdds == old(ghost.cacheAdds) + 1 && !ghost.cacheLastAdd && ghost.cacheLastCache == d.dkgSeedCache && ghost.cacheLastKey == big2str(bigval(newDKGSeed)))
 
@@ -603,7 +607,9 @@ package tbtc
 //@   requires newDKGResultSeed != nil
 //@   binds ghost.cacheSeen = false
 //@   binds ghost.tcShared = true
-//@   modifies ghost.cacheAdds, ghost.cacheLastAdd, ghost.cacheLastKey, ghost.cacheLastCache, ghost.tcContent, ghost.tcHit
+//@   modifies ghost.cacheAdds, ghost.cacheLastAdd, ghost.cacheLastKey, ghost.cacheLastCache, ghost.tcContent, ghost.tcHit, ghost.dedupAdmit
+//@   yields ghost.dedupAdmit = result0
+//@   ensures ghost.dedupAdmit == result
 //@   ensures [proceeds-only-as-the-one-inserting-caller] result ==> ghost.cacheAdds == old(ghost.cacheAdds) + 1 && ghost.cacheLastAdd && ghost.cacheLastCache == d.dkgResultHashCache
 //@   ensures [duplicate-only-if-seen-or-the-atomic-insert-failed] !result ==> (ghost.cacheAdds == old(ghost.cacheAdds) && ghost.cacheSeen) || (ghost.cacheAdds == old(ghost.cacheAdds) + 1 && !ghost.cacheLastAdd && ghost.cacheLastCache == d.dkgResultHashCache)
 //@   ensures [key-is-the-separated-triple] ghost.cacheLastKey == big2str(bigval(newDKGResultSeed)) + ":" + hexenc(newDKGResultHash[0:32]) + ":" + itoa(wrap_i64(newDKGResultBlock))
@@ -612,9 +618,27 @@ package tbtc
 //@   property C37
 //@   binds ghost.cacheSeen = false
 //@   binds ghost.tcShared = true
-//@   modifies ghost.cacheAdds, ghost.cacheLastAdd, ghost.cacheLastKey, ghost.cacheLastCache, ghost.tcContent, ghost.tcHit
+//@   modifies ghost.cacheAdds, ghost.cacheLastAdd, ghost.cacheLastKey, ghost.cacheLastCache, ghost.tcContent, ghost.tcHit, ghost.dedupAdmit
+//@   yields ghost.dedupAdmit = result0
+//@   ensures ghost.dedupAdmit == result
 //@   ensures [proceeds-only-as-the-one-inserting-caller] result ==> ghost.cacheAdds == old(ghost.cacheAdds) + 1 && ghost.cacheLastAdd && ghost.cacheLastCache == d.walletClosedCache && ghost.cacheLastKey == hexenc(WalletID[0:32])
 //@   ensures [duplicate-only-if-seen-or-the-atomic-insert-failed] !result ==> (ghost.cacheAdds == old(ghost.cacheAdds) && ghost.cacheSeen) || (ghost.cacheAdds == old(ghost.cacheAdds) + 1 && !ghost.cacheLastAdd && ghost.cacheLastCache == d.walletClosedCache && ghost.cacheLastKey == hexenc(WalletID[0:32]))
+
+// The event handlers act only on an event the deduplicator admitted.
+//@ func Initialize
+//@   property C37
+//@   opt noframe 1
+//@   lit 3
+//@     opt noframe 1
+//@     requires [dkg-started-events-carry-a-seed] event.Seed != nil
+//@     assert call:node.joinDKGIfEligible : [dkg-is-joined-only-for-a-start-event-the-deduplicator-admitted] ghost.dedupAdmit
+//@   lit 5
+//@     opt noframe 1
+//@     requires [result-submitted-events-carry-a-seed] event.Seed != nil
+//@     assert call:node.validateDKG : [a-result-is-validated-only-for-a-submission-event-the-deduplicator-admitted] ghost.dedupAdmit
+//@   lit 7
+//@     opt noframe 1
+//@     assert call:node.handleWalletClosure : [a-closure-is-handled-only-for-an-event-the-deduplicator-admitted] ghost.dedupAdmit
 
 // Key injectivity. The string facts are trusted (alphabets: Text(16) of a
 // non-negative integer is [0-9a-f]+, hex.EncodeToString is [0-9a-f]*, Itoa is
@@ -1072,3 +1096,20 @@ package tbtc
 //@   opt noframe 1
 //@   opt safe index slice div nil typeassert
 // <<< generated (unmarshal)
+
+// ---------------------------------------------------------------------------
+// withCancelOnBlock (C24, C46, C11, C36 rely on it for their deadlines): the
+// waiter goroutine waits for exactly the given block under the parent context
+// and cancels the derived context on every way out - also when waiting failed.
+//@ ghost blockCtxCancels int
+//@ assume func withCancelOnBlock#lit1:cancelBlockCtx
+//@   modifies ghost.blockCtxCancels
+//@   ensures ghost.blockCtxCancels == old(ghost.blockCtxCancels) + 1
+//@ func withCancelOnBlock
+//@   property C24 C46
+//@   opt noframe 1
+//@   lit 1
+//@     opt noframe 1
+//@     modifies ghost.blockCtxCancels
+//@     assert call:withCancelOnBlock#lit1:waitForBlockFn : [waits-for-exactly-the-given-block-under-the-parent-context] arg0 == ctx && arg1 == block
+//@     ensures [the-derived-context-is-cancelled-on-every-way-out-of-the-waiter] ghost.blockCtxCancels >= old(ghost.blockCtxCancels) + 1
